@@ -30,6 +30,7 @@ LISTINGS = [
 BUCKET_META = {
     "b1": dict(id="b1", created="2020-01-02T03:04:05.678000+00:00", name="Bucket One", type="currentwindow", client="aw-watcher-window", hostname="host", data={"k": [1, {"n": None}], "ü": "x"}),
     "bü-2": dict(id="bü-2", created="1999-12-31T23:59:59+00:00", name=None, type="afkstatus", client="c", hostname="h2", data={}),
+    "B1": dict(id="B1", created="2021-01-01T00:00:00+00:00", name="upper", type="t", client="c", hostname="H", data={"case": "upper"}),
 }
 
 
@@ -44,6 +45,7 @@ class LegacyStore(AbstractStorage):
 
     def __init__(self, testing=True, **kw):
         self.testing = testing
+        self.kw = kw
         self.writes = []
         LegacyStore.instances.append(self)
 
@@ -138,7 +140,11 @@ def h_migrate(x, nb, ne, ieee=False):
         if ieee and x.sym:
             fp.IEEE = True
         try:
-            ds = Datastore(SqliteStorage, testing=testing)
+            try:
+                ds = Datastore(SqliteStorage, testing=testing)
+            except Exception as e:  # noqa — the store must come up whatever the legacy content
+                fp.IEEE = False
+                return [("store-starts-and-migration-completes (raised %s)" % type(e).__name__, False)], ["raised", type(e).__name__]
             if ieee:
                 have_ieee = [row_of_event(e) for e in ds[bids[0]].get(-1)] if bids[0] in ds.buckets() else []
         finally:
@@ -149,7 +155,8 @@ def h_migrate(x, nb, ne, ieee=False):
         migrated = len(LegacyStore.instances) > 0
         obl = [("migration-runs-iff-a-legacy-file-of-this-profile-exists", migrated == expect[testing])]
         if migrated:
-            obl.append(("legacy-store-opened-with-same-profile", all(inst.testing == testing for inst in LegacyStore.instances)))
+            right_file = "peewee-sqlite-testing.v2.db" if testing else "peewee-sqlite.v2.db"
+            obl.append(("legacy-store-opened-with-same-profile", all(inst.testing == testing and (inst.kw.get("filepath") is None or os.path.basename(inst.kw["filepath"]) == right_file) for inst in LegacyStore.instances)))
             newb = ds.buckets()
             obl.append(("all-buckets-present", set(newb) == set(bids)))
             for b in bids:
@@ -157,17 +164,17 @@ def h_migrate(x, nb, ne, ieee=False):
                     continue
                 want = BUCKET_META[b]
                 got = newb[b]
-                obl.append(("bucket-metadata-preserved/%s" % ("b1" if b == "b1" else "b2"), all(got.get(k) == want[k] for k in ("id", "type", "client", "hostname", "created", "name"))))
-                obl.append(("bucket-data-preserved/%s" % ("b1" if b == "b1" else "b2"), got.get("data") == want["data"]))
+                obl.append(("bucket-metadata-preserved/%s" % {"b1": "b1", "B1": "b3"}.get(b, "b2"), all(got.get(k) == want[k] for k in ("id", "type", "client", "hostname", "created", "name"))))
+                obl.append(("bucket-data-preserved/%s" % {"b1": "b1", "B1": "b3"}.get(b, "b2"), got.get("data") == want["data"]))
                 have = [row_of_event(e) for e in ds[b].get(-1)]
                 src = LegacyStore.events[b]
-                obl.append(("no-event-dropped-or-duplicated/%s" % ("b1" if b == "b1" else "b2"), len(have) == len(src)))
+                obl.append(("no-event-dropped-or-duplicated/%s" % {"b1": "b1", "B1": "b3"}.get(b, "b2"), len(have) == len(src)))
                 if len(src) > 8:
                     # large buckets: every event is looked up by its (distinct, increasing) instant
                     byk = sorted(have, key=lambda r: 0)  # keep order; membership is decided symbolically below
                     src = [src[0], src[len(src) // 2], src[-2], src[-1]]
                 for r in src:
-                    obl.append(("every-event-present-with-same-instant-duration-data/%s" % ("b1" if b == "b1" else "b2"), Sum([If(r.same_content(h), 1, 0) for h in have]) >= 1))
+                    obl.append(("every-event-present-with-same-instant-duration-data/%s" % {"b1": "b1", "B1": "b3"}.get(b, "b2"), Sum([If(r.same_content(h), 1, 0) for h in have]) >= 1))
             obl.append(("legacy-store-not-written", all(not inst.writes for inst in LegacyStore.instances)))
         else:
             obl.append(("no-migration-leaves-new-store-empty", ds.buckets() == {}))
@@ -188,7 +195,7 @@ def harnesses(tier):
     ST.install_common()
     ST.install_sqlite()
     hs = []
-    for nb, ne in ([(1, 2), (2, 1), (1, 101)] if tier == "quick" else [(1, 2), (2, 1), (2, 2), (1, 3), (1, 101), (1, 230)]):
+    for nb, ne in ([(1, 2), (2, 1), (3, 1), (1, 101)] if tier == "quick" else [(1, 2), (2, 1), (2, 2), (1, 3), (1, 101), (1, 230)]):
         hs.append((Harness(PROP, "migrate-%db-%de" % (nb, ne), h_migrate, dict(nb=nb, ne=ne), "first start of the default SqliteStorage beside a legacy store with %d bucket(s) x %d event(s) carrying ids; directory listing and profile chosen by forking" % (nb, ne), split_depth=6), 1800))
     hs.append((Harness(PROP, "migrate-ieee-durations", h_migrate, dict(nb=1, ne=1, ieee=True), "one legacy event copied under IEEE double rounding: every duration 0..30 d (80 range pieces), instants 2020..2038", split_depth=4, fresh_solver=True), 1800))
     return hs
@@ -198,7 +205,7 @@ def meta(chk, tier):
     chk.functions = C.source_files("aw_datastore/migration.py", "aw_datastore/storages/sqlite.py", "aw_datastore/__init__.py")
     chk.functions.append(dict(functions=["SqliteStorage.__init__ (migration trigger)", "check_for_migration", "detect_db_files", "peewee_v2_to_sqlite_v1", "SqliteStorage.create_bucket / insert_many / replace"]))
     chk.bounds = [
-        "legacy store: <=2 buckets (one with a unicode id, a null name and empty data; one with nested data) x <=%d events with symbolic instants, durations, tags and pairwise distinct symbolic ids; plus one bucket of 101 (thorough: 230) events with strictly increasing symbolic ids and instants (bulk-insert chunking)" % (2 if tier == "quick" else 3),
+        "legacy store: <=3 buckets (one with a unicode id, a null name and empty data; one with nested data; two ids that differ only in case) x <=%d events with symbolic instants, durations, tags and pairwise distinct symbolic ids; plus one bucket of 101 (thorough: 230) events with strictly increasing symbolic ids and instants (bulk-insert chunking)" % (2 if tier == "quick" else 3),
         "%d directory listings (no file, distractors only, legacy file of the normal / testing / both profiles) x both profiles" % len(LISTINGS),
     ]
     chk.stubs = ["aw_datastore.storages.PeeweeStorage -> read-only legacy stub behind the real buckets()/get_events() interface (records write attempts)", "os.listdir / os.path.exists / get_data_dir -> in-memory directory", "sqlite3 -> symex.sqlstub"]
